@@ -141,7 +141,7 @@ reg("C01", harness="c01_deflate", level="exploration", deadline=(400, 2400), ext
                "(first call ample or refused at 5 output sizes, text/incompressible/mixed up to 2 MiB, levels x level buffers): the second call must "
                "decode to its input and equal a fresh object's output byte for byte.",
     level_note="inputs outside the families are not covered; trusted: ref/ref_inflate.c (self-checked against zlib), zlib 1.2.13",
-    runs={"quick": [dict(flavour="sim", part="sweep"), dict(flavour="sim", part="reuse")],
+    runs={"quick": [dict(flavour="sim", part="sweep"), dict(flavour="sim", part="reuse"), dict(flavour="lht", part="sweep")],
           "thorough": [dict(flavour="sim", part="sweep"), dict(flavour="sim", part="reuse"), dict(flavour="h8k", part="sweep"), dict(flavour="lht", part="sweep")]},
     rule="case = (input, level, flush, wrapper, hist_bits, table, level_buf, api, cpu level); distinct_nontrivial = number of DISTINCT non-empty "
          "output streams (hash of bytes) that were produced and verified; evaluations = compress calls.")
@@ -161,7 +161,7 @@ reg("C02", harness="c02_inflate", level="exploration", deadline=(400, 2400), ext
                "with and without 5000 trailing bytes (multi-symbol lookup tables), on 3 kernels.",
     level_note="streams outside the enumerated grammar bound are not covered; trusted: ref/ref_gen.h generator + ref/ref_inflate.c, cross-checked "
                "against each other and zlib on every stream (gate).",
-    runs={"quick": [dict(flavour="sim", part="streams"), dict(flavour="sim", part="edge")],
+    runs={"quick": [dict(flavour="sim", part="streams"), dict(flavour="sim", part="edge"), dict(flavour="h8k", part="streams")],
           "thorough": [dict(flavour="sim", part="streams"), dict(flavour="sim", part="edge"), dict(flavour="h8k", part="streams"), dict(flavour="lht", part="streams"), dict(flavour="lht", part="edge")]},
     rule="case = (stream, wrapper mode, header variant, junk length, cpu level, api); distinct_nontrivial = distinct stream bodies (hash); "
          "evaluations = decode calls compared with the reference.")
